@@ -216,6 +216,19 @@ def check_program(prog, tier, part):
                     report("named-captured-untagged", sel, f"{vname} does not carry @{T} but events {res[1]!r} were delivered")
                 elif res[0] == "error":
                     report("internal-error", sel, res[1])
+    # after all the tag-restricted probes on this function: the same names without a tag see every
+    # binding again (an instrumented variant made for a tag must not be served for the untagged selector)
+    for vname in names:
+        sel = f"f > {vname}"
+        case(sel)
+        res, _ = run_probe(ns, sel, x)
+        expn = [(n, v) for n, v, tags in seq if n == vname]
+        if res[0] != "ok":
+            report("untagged-refused", sel, str(res[1]))
+        elif res[1] != expn:
+            report("untagged-after-tagged", sel, f"after the tag probes on f: expected every binding {expn!r}, delivered {res[1]!r}")
+        else:
+            part["nontrivial"] += 1
     sel = "f > $v"
     case(sel)
     res, _ = run_probe(ns, sel, x)
